@@ -14,3 +14,4 @@ import Dm.Props.C12
 #print axioms Dm.Props.C12.consts_in_repr_are_discriminants
 #print axioms Dm.Props.C12.i8_far_variant_witness
 #print axioms Dm.Props.C12.source_repr_ints_are_the_model
+#print axioms Dm.Props.C12.int_hint_found_anywhere
